@@ -33,6 +33,10 @@ const ERROR_TEXTS: &[(&str, &str)] = &[
     ("ILLEGAL DIRECT ERROR", "illegal_direct"),
 ];
 
+pub fn error_kind_of_text(first_line: &str) -> String {
+    ERROR_TEXTS.iter().find(|(t, _)| first_line.starts_with(t)).map(|(_, k)| k.to_string()).unwrap_or_else(|| "other".to_string())
+}
+
 fn in_line(text: &str) -> J {
     // "... IN 30" / "... IN 30: ..." -> digits of the line number
     if let Some(pos) = text.find(" IN ") {
